@@ -191,7 +191,29 @@ pub fn pick_once(flavour: usize, n: usize, env: &mut Env, alpha: Alphabet) -> Pi
 fn choice_case(flavour: usize, n: usize) -> (u64, u64, Option<(String, String)>, usize) {
     let label = format!("{} on {n} members", FLAVOURS[flavour]);
     let mut law: Law<Pick> = Law::new();
-    let st = explore(|env| pick_once(flavour, n, env, Alphabet::Grid(60)), |_, w, p| law.add(p, w), 1_000_000);
+    // Grid(60) resolves every size up to 6; larger sources get the grid of their own size
+    let grid = if n <= 6 { 60 } else { n as u32 };
+    let st = explore(|env| pick_once(flavour, n, env, Alphabet::Grid(grid)), |_, w, p| law.add(p, w), 1_000_000);
+    // membership on every stream, including the extreme words (rand's rejection loop never accepts the
+    // all-zero word, so the tree is cut at a short horizon; leaves beyond it are still judged)
+    if n >= 1 {
+        let mut bad: Option<Pick> = None;
+        let st2 = explore(
+            |env| {
+                env.horizon = 5;
+                pick_once(flavour, n, env, Alphabet::Ext(2))
+            },
+            |_, _, p| {
+                if !matches!(p, Pick::Member(_)) && bad.is_none() {
+                    bad = Some(p);
+                }
+            },
+            100_000,
+        );
+        if let Some(p) = bad {
+            return (st.leaves + st2.leaves, st.choice_points, Some((format!("choice/{flavour}/result"), format!("{label}: on a stream with extreme words the result was {p:?}, not a member"))), 0);
+        }
+    }
     let key = format!("choice/{}", flavour);
     if let Some(d) = &st.diverged {
         return (st.leaves, st.choice_points, Some((format!("{key}/nondeterministic"), format!("{label}: {d}"))), 0);
@@ -224,6 +246,7 @@ fn collection_case(kind: usize, size: usize) -> (u64, u64, Option<(String, Strin
     let names = ["Vec<u64> via into_collection_generator", "Vec<u64> via to_collection_generator", "Bitstring", "Plushy", "Vec<EcIndividual> via with_scorer", "Generator::new"];
     let label = format!("{} of size {size}", names[kind]);
     let mut env = Env::new(vec![]);
+    env.horizon = usize::MAX; // a one-word alphabet does not branch: count every draw
     let mut rng = ChoiceRng::new(&mut env, Alphabet::Grid(1));
     let tape = Tape { n: Cell::new(0) };
     let r = mcx::guarded(|| -> Result<(), String> {
@@ -273,7 +296,7 @@ fn collection_case(kind: usize, size: usize) -> (u64, u64, Option<(String, Strin
         }
         Ok(())
     });
-    let drawn = env.draws();
+    let drawn = env.draws() + env.tail as usize;
     let v = match r {
         Err(p) => Some((format!("collection/{kind}/panic"), format!("{label}: panicked: {p}"))),
         Ok(Err(e)) => Some((format!("collection/{kind}/content"), format!("{label}: {e}; expected exactly {size} elements in generation order"))),
@@ -311,8 +334,55 @@ pub fn run(run: &mut Run) {
             }
         }
     }
+    // larger sources (vector and slice flavours; arrays need a const length): sizes around powers of two
+    let big: Vec<usize> = if run.quick() { vec![7, 8, 9, 12, 16, 17, 31, 32, 33, 100, 255, 256, 257] } else { (7..=40).chain([63, 64, 65, 100, 127, 128, 129, 192, 255, 256, 257, 300, 511, 512, 513, 1000]).collect() };
+    for flavour in [0usize, 1, 2, 3, 4, 10, 11, 12, 13, 14] {
+        for &n in &big {
+            let (leaves, cps, v, outcomes) = choice_case(flavour, n);
+            run.evaluations += leaves;
+            run.transitions += cps;
+            run.states += 1;
+            if outcomes > 1 {
+                nontrivial += 1;
+            }
+            if let Some((k, w)) = v {
+                if k.starts_with("machinery/") {
+                    run.machinery(w);
+                } else {
+                    run.violation(k, w, json!({"check":"C18","scenario":"choice","flavour":flavour,"n":n}));
+                }
+            }
+        }
+    }
+    run.bound("large_source_sizes", json!(big));
+    let sizes: Vec<usize> = (0..=max_n).chain(if run.quick() { vec![7, 8, 16, 64, 255, 256, 257] } else { vec![7, 8, 9, 15, 16, 17, 64, 100, 255, 256, 257, 1000, 4096] }).collect();
+    run.bound("collection_sizes", json!(sizes));
+    // nested: a collection of `outer` collections of `inner` elements each, in generation order
+    for outer in 0..=3usize {
+        for inner in 0..=3usize {
+            let tape = Tape { n: Cell::new(0) };
+            let mut env = Env::new(vec![]);
+            let mut rng = ChoiceRng::new(&mut env, Alphabet::Grid(1));
+            let r = mcx::guarded(|| {
+                let a: Vec<Vec<u64>> = tape.to_collection_generator(inner).into_collection_generator(outer).sample(&mut rng);
+                let b: Vec<Vec<u64>> = Tape { n: Cell::new(0) }.into_collection_generator(inner).to_collection_generator(outer).sample(&mut rng);
+                (a, b)
+            });
+            let want: Vec<Vec<u64>> = (0..outer).map(|o| (0..inner).map(|i| (o * inner + i) as u64).collect()).collect();
+            run.evaluations += 2;
+            run.states += 1;
+            match r {
+                Err(p) => run.violation("collection/nested/panic", format!("{outer} collections of {inner}: panicked: {p}"), json!({"check":"C18","scenario":"nested","outer":outer,"inner":inner})),
+                Ok((a, b)) => {
+                    if a != want || b != want {
+                        run.violation("collection/nested/content", format!("{outer} collections of {inner} elements: produced {a:?} (borrowing inner) / {b:?} (owning inner), expected {want:?}"), json!({"check":"C18","scenario":"nested","outer":outer,"inner":inner}));
+                    }
+                }
+            }
+        }
+    }
     for kind in 0..6 {
-        for size in 0..=max_n {
+        for &size in &sizes {
             let (leaves, cps, v, _) = collection_case(kind, size);
             run.evaluations += leaves;
             run.transitions += cps;
@@ -327,7 +397,7 @@ pub fn run(run: &mut Run) {
     }
     run.traces_validated = run.evaluations;
     run.distinct_nontrivial = nontrivial;
-    run.rule = "every conversion flavour of conversion.rs (Vec, &Vec, array, &array, slice; into/to; owning OneOfCloning, borrowing Choose, cloning ChooseCloning), the direct constructors and uniform_distribution_of! x source sizes 0..n with pairwise distinct members x all 60 grid words: empty source => construction error; otherwise num_choices == len and each member exactly 1/len (borrowing flavours: pointer into the source); collection generators for Vec, Bitstring, Plushy and scored populations: exactly `size` elements in generation order. non-trivial = scenarios with more than one outcome".into();
+    run.rule = "every conversion flavour of conversion.rs (Vec, &Vec, array, &array, slice; into/to; owning OneOfCloning, borrowing Choose, cloning ChooseCloning), the direct constructors and uniform_distribution_of! x source sizes 0..n with pairwise distinct members x all 60 grid words (vector/slice flavours also sizes around powers of two up to 257 (1000) on the grid of their own size; membership additionally on every stream over the extreme words 0 and all-ones): empty source => construction error; otherwise num_choices == len and each member exactly 1/len (borrowing flavours: pointer into the source); collection generators for Vec, Bitstring, Plushy and scored populations: exactly `size` elements in generation order (sizes 0..n and around powers of two up to 257 (4096); nested collections 0..3 x 0..3). non-trivial = scenarios with more than one outcome".into();
     run.bound("max_source_size", json!(max_n));
     run.bound("alphabet", json!("Grid(60)"));
     run.assumptions = vec!["rand's Uniform / slice::Choose map grid cells to members as calibrated".into()];
@@ -336,6 +406,10 @@ pub fn run(run: &mut Run) {
 }
 
 pub fn replay(v: &Value) -> bool {
+    if v["scenario"] == json!("nested") {
+        println!("nested collections are re-checked by the full run: ./check C18");
+        return false;
+    }
     let r = if v["scenario"] == json!("choice") {
         choice_case(v["flavour"].as_u64().unwrap_or(0) as usize, v["n"].as_u64().unwrap_or(0) as usize)
     } else {
